@@ -21,6 +21,7 @@ class Streams:
     def __init__(self, run_seed: int):
         self.run_seed = run_seed
         self._s = {}
+        self.verif_seed = 0
 
     def __getitem__(self, label: str) -> random.Random:
         r = self._s.get(label)
